@@ -97,9 +97,37 @@ class _TidItems(list):
         super().__init__(items)
 
 
+def run_suite(run, only=None):
+    """The repository's own test-suite, recorded by the pytest plugin (drivers/suite.py, suite_plugin.py),
+    judged like any other trace. `only` restricts to one trace id (replay)."""
+    from ..drivers.suite import suite_traces
+
+    traces, info = suite_traces()
+    run.extra["repository_suite"] = info
+    if info.get("pytest_rc") not in (0, 1) or not traces:
+        run.machinery_errors.append(f"recording the repository test-suite failed: {info.get('pytest_tail')}")
+        return []
+    if only:
+        traces = [t for t in traces if t["id"] == only]
+    items = [{"suite": t["id"]} for t in traces]
+    n = sum(len(t["events"]) + 1 for t in traces)
+
+    def sig_fn(item, clause, at, _c=traces):
+        tid = at.get("tid", 0)
+        return _sig(_c[tid - 1], clause, at) if 1 <= tid <= len(_c) else "unknown"
+
+    run.validate("Trace_Twin", {"traces": traces, "expect_judged": n}, items, sig_fn=sig_fn)
+    run.traces += len(traces)
+    for t in traces:
+        run.note_case("suite:" + t["id"], nontrivial(t))
+    return traces
+
+
 def replay_programs(run, rp):
     item = rp["item"]
     run.is_replay = True
+    if "suite" in item:
+        return run_suite(run, only=item["suite"])
     prog = item["prog"]
     progs = [prog]
     if prog.get("pair"):
